@@ -180,6 +180,10 @@ def cc_build(name, sources, variant="default", extra_flags=(), link_flags=(), sa
     outdir = os.path.join(WORK, "cache", key)
     binp = os.path.join(outdir, name)
     if os.path.exists(binp):
+        try:
+            os.utime(outdir)        # keep entries that are in use away from the pruner
+        except OSError:
+            pass
         return binp
     tmpdir = outdir + ".tmp%d" % os.getpid()
     shutil.rmtree(tmpdir, ignore_errors=True)
@@ -228,14 +232,18 @@ class BuildError(Exception):
     pass
 
 
-def prune_cache(keep=40):
+def prune_cache(keep=150, min_age_s=6 * 3600):
+    """Drop old cache entries: only beyond `keep` entries and only when unused for hours, so that a
+    binary another check is executing right now is never removed."""
     d = os.path.join(WORK, "cache")
     try:
         ents = sorted((os.path.getmtime(os.path.join(d, e)), e) for e in os.listdir(d))
     except OSError:
         return
-    for _, e in ents[:-keep]:
-        shutil.rmtree(os.path.join(d, e), ignore_errors=True)
+    now = time.time()
+    for mt, e in ents[:-keep]:
+        if now - mt > min_age_s:
+            shutil.rmtree(os.path.join(d, e), ignore_errors=True)
 
 
 # --------------------------------------------------------------------------- Lean: build, audit, driver
